@@ -496,7 +496,13 @@ impl Property for C15 {
 				let mut track = mgr
 					.add_spatial_sub_track(&listener, v(start_em), SpatialTrackBuilder::new().distances((g.min, g.max)).attenuation_function(g.attenuation).spatialization_strength(g.strength))
 					.map_err(|_| Failure::simple("setup", "track"))?;
-				track.play(ProbeSoundData::new(Signal::Dc(g.input.0, g.input.1), None)).map_err(|_| Failure::simple("setup", "sound"))?;
+				// in half of the cases the track is still empty (no sound, no effect, no child) while it is
+				// being moved, and the sound only arrives after the move: it must be heard where the
+				// track was sent, not where the track stood when it went idle
+				let late_sound = src.bool();
+				if !late_sound {
+					track.play(ProbeSoundData::new(Signal::Dc(g.input.0, g.input.1), None)).map_err(|_| Failure::simple("setup", "sound"))?;
+				}
 				last_frame(&mut mgr, g.ibs)?;
 				let dur = src.usize_in(0, 5) as f64 * g.ibs as f64 / 48000.0;
 				let tw = Tween {
@@ -509,8 +515,11 @@ impl Property for C15 {
 				for _ in 0..8 {
 					last_frame(&mut mgr, g.ibs)?;
 				}
+				if late_sound {
+					track.play(ProbeSoundData::new(Signal::Dc(g.input.0, g.input.1), None)).map_err(|_| Failure::simple("setup", "sound"))?;
+				}
 				let o = last_frame(&mut mgr, g.ibs)?;
-				ensure!(close(o.0, out.0 as f64, tol * 4.0) && close(o.1, out.1 as f64, tol * 4.0), "tween-ends-at-static-result", "after tweening listener and emitter to the geometry the output is {o:?}, a scene built there gives {out:?}; {g:?}");
+				ensure!(close(o.0, out.0 as f64, tol * 4.0) && close(o.1, out.1 as f64, tol * 4.0), "tween-ends-at-static-result", "after tweening listener and emitter to the geometry{} the output is {o:?}, a scene built there gives {out:?}; {g:?}", if late_sound { " (the sound was only played after the move, the track was empty during it)" } else { "" });
 				// the same move commanded before the very first callback (instant tweens): the first
 				// callback carries the move, from the second one on the scene is where it was sent
 				let mut mgr = default_manager(48000, g.ibs);
